@@ -52,7 +52,7 @@ def main():
         copy = make_copy()
         try:
             apply(copy, c["edits"])
-            env = dict(os.environ, GSA_EVIDENCE_DIR=evdir)
+            env = dict(os.environ, GSA_EVIDENCE_DIR=evdir, GSA_WORKTAG="-self")
             p = subprocess.run([os.path.join(VERIF, "check"), c["check"], "--tier", "quick", "--repo", copy],
                                stdout=subprocess.PIPE, stderr=subprocess.STDOUT, text=True, env=env)
             out = p.stdout
